@@ -26,7 +26,7 @@ KEY = "cgroup.absolutePath()"
 def run(ctx):
     # locals / parameters the rules below refer to by name (a rename makes the analysis 'broken', never a violation)
     ctx.anchor(ctx.fn1('Oomd::Engine::Ruleset::runOnce'), 'cgroup', 'visited', 'maybeHasXattr', 'cgroupfd', 'context')
-    ctx.anchor(ctx.fn1('Oomd::Engine::Ruleset::registerRunnableRulesetForCgroupPath'), 'cgroup', 'args', 'action_group', 'detector_groups')
+    ctx.anchor(ctx.fn1('Oomd::Engine::Ruleset::registerRunnableRulesetForCgroupPath'), 'args', 'action_group', 'detector_groups')
     P = ctx.prog
     ro = ctx.fn1("Oomd::Engine::Ruleset::runOnce")
     ls = [l for l in loops(ro) if l["stmt"] is not None and ro.nodes[l["stmt"]]["k"] == "rangefor"
@@ -73,7 +73,7 @@ def run(ctx):
                   "with an xattr_filter the instance runs only for cgroups carrying the attribute",
                   "the instance can run for a cgroup without the xattr_filter attribute")
         r = Expander(P, ro)(ro.nodes[i]["recv"])
-        ctx.check(("this->runnable_rulesets_[%s]" % KEY in r) or ("this->runnable_rulesets_[elem(" in r and ".absolutePath()]" in r), "run-the-instance-of-this-cgroup", "provenance", ro.loc(i),
+        ctx.check(("this->runnable_rulesets_[%s]" % KEY in hoist_text(ro, ro.nodes[i]["recv"], P)) or ("this->runnable_rulesets_[elem(" in r and ".absolutePath()]" in r), "run-the-instance-of-this-cgroup", "provenance", ro.loc(i),
                   "the instance looked up by this cgroup's absolute path is run", "runs " + r[:100])
     # past the filters the instance always runs, is marked visited
     for b in back_sources(L):
@@ -82,7 +82,7 @@ def run(ctx):
         for st in parts.values():
             pass
     for i in vis:
-        ctx.check(fi.must(i, "ran") and ro.text(ro.nodes[i]["args"][0]) == KEY, "visited-after-run-same-key", "order", ro.loc(i),
+        ctx.check(fi.must(i, "ran") and hoist_text(ro, ro.nodes[i]["args"][0], P) == KEY, "visited-after-run-same-key", "order", ro.loc(i),
                   "a cgroup is marked visited (by the same key) after its instance ran", "visited marking does not follow the run with the same key")
     for i in impl:
         # the visit marking follows on every path to the end of the iteration
@@ -202,6 +202,12 @@ def run(ctx):
     # ---- instance creation: fresh plugins, cgroup default, keyed insert
     rg = ctx.fn1("Oomd::Engine::Ruleset::registerRunnableRulesetForCgroupPath")
     X = Expander(P, rg)
+    # the instance cgroup is the CgroupPath parameter, whatever it is called
+    cgp = [p_["name"] for p_ in rg.params if "CgroupPath" in p_["type"]]
+    if len(cgp) != 1:
+        ctx.broken("instance-cgroup-parameter", "anchor", rg.loc(), "registerRunnableRulesetForCgroupPath has no single CgroupPath parameter")
+        return
+    cgn = cgp[0]
     pushes = [i for i in rg.calls("emplace_back", "push_back") if rg.text(rg.nodes[i].get("recv", -1)) in ("action_group", "detector_groups")]
     ctx.counters["instance_plugin_pushes"] = len(pushes)
     ctx.floor("instance_plugin_pushes", 2, "plugin/group insertions into the new instance")
@@ -249,12 +255,12 @@ def run(ctx):
                   "actions are initialised with the template action's arguments", "init receives " + a[0][:80])
     for i in te:
         a = [rg.text(x) for x in rg.nodes[i]["args"]]
-        ctx.check('"cgroup"' in a[0] and "cgroup.relativePath()" in a[1] and rg.nodes[i]["cname"] == "try_emplace",
+        ctx.check('"cgroup"' in a[0] and (cgn + ".relativePath()") in a[1] and rg.nodes[i]["cname"] == "try_emplace",
                   "cgroup-default-does-not-override", "value-shape", rg.loc(i),
                   "try_emplace(\"cgroup\", instance path): an explicit 'cgroup' argument wins", "default inserted by %s(%s)" % (rg.nodes[i]["cname"], ", ".join(a)[:80]))
     ins = [i for i, n in enumerate(rg.nodes) if n["k"] == "call" and n.get("op") == "=" and "recv" in n
            and "this->runnable_rulesets_[" in rg.text(n["recv"])]
-    ctx.check(len(ins) == 1 and ("[%s]" % KEY) in rg.text(rg.nodes[ins[0]]["recv"]), "instance-stored-under-absolute-path", "provenance",
+    ctx.check(len(ins) == 1 and ("[%s.absolutePath()]" % cgn) in rg.text(rg.nodes[ins[0]]["recv"]), "instance-stored-under-absolute-path", "provenance",
               rg.loc(ins[0]) if ins else rg.loc(), "the instance is stored under the cgroup's absolute path (the key runOnce uses)",
               "instance is stored under another key than runOnce looks up")
     mk = [i for i in rg.calls("make_unique") if "Ruleset" in rg.nodes[i].get("type", "") and "DetectorGroup" not in rg.nodes[i].get("type", "")]
